@@ -20,7 +20,7 @@ def _alarm(signum, frame):
     raise Livelock()
 
 
-WATCHDOG_S = 2.0          # CPU seconds for everything done with one input (normally < 1 ms)
+WATCHDOG_S = 1.0          # CPU seconds per call on one input (normally < 1 ms)
 LOW_RECURSION = 220       # first attempt; a RecursionError is confirmed under the interpreter's normal limit
 NORMAL_RECURSION = 1000
 
@@ -87,6 +87,7 @@ def guarded(fn):
         if _confirmations['n'] > 200 and _confirmations['n'] % 16:
             return 'other', None, 'RecursionError'
     except Livelock as e:
+        signal.setitimer(signal.ITIMER_VIRTUAL, WATCHDOG_S)      # re-arm for the next call on this input
         return 'hang', None, 'Livelock'
     except BaseException as e:   # noqa
         return _classify_exc(e), None, type(e).__name__
@@ -95,6 +96,7 @@ def guarded(fn):
     try:
         return 'value', fn(), ''
     except Livelock:
+        signal.setitimer(signal.ITIMER_VIRTUAL, WATCHDOG_S)
         return 'hang', None, 'Livelock'
     except BaseException as e:   # noqa
         return _classify_exc(e), None, type(e).__name__
@@ -155,6 +157,8 @@ def run_case(text, enc='utf-8', vk='base', joins=True, full=True):
 def _run_case(rec, text, enc, joins, full):
     oc, info, exc = guarded(lambda: URLInfo.parse(text, encoding=enc))
     rec['oc'], rec['exc'] = oc, exc
+    if oc == 'hang':
+        return          # (parse_url_or_log would hang in the same place)
     if oc == 'value':
         uoc, url, uexc = guarded(lambda: info.url)
         rec['uoc'] = uoc
@@ -215,5 +219,18 @@ def run_family(fam, joins=True, full=True):
     return out
 
 
+HANG_BUDGET = 12     # a code under test that hangs on (nearly) every input must not turn into a stuck check
+
+
 def run_families(fams, joins=True, full=True):
-    return [run_family(f, joins, full) for f in fams]
+    """Member records per family; None for the families that were not executed because HANG_BUDGET inputs had
+    already run into the watchdog in this process (the violation is established by then)."""
+    out, hangs = [], 0
+    for f in fams:
+        if hangs >= HANG_BUDGET:
+            out.append(None)
+            continue
+        recs = run_family(f, joins, full)
+        hangs += sum(1 for r in recs if 'hang' in (r['oc'], r['uoc'], r['acc'], r['log'], r['join'], r['oc2']))
+        out.append(recs)
+    return out
